@@ -91,6 +91,12 @@ fn raw_pool() -> Vec<(u16, Vec<u8>)> {
     v.push((0x001e, vec![0x5a; 32]));
     // a relayed message's tail: the value ends in what looks like a FINGERPRINT attribute (index 35)
     v.push((0x0013, [&[0x00u8, 0x01, 0x00, 0x08, 0x21, 0x12, 0xa4, 0x42, 1, 2, 3, 4, 5, 6, 7, 8, 9, 10, 11, 12][..], &[0x80, 0x28, 0x00, 0x04, 0xde, 0xad, 0xbe, 0xef][..]].concat()));
+    // large attributes whose length is not a multiple of four (index 36 onwards): beyond any small
+    // scratch buffer a sealing step might stream the message through (257 / 301 / 1025 / 4098 / 16385
+    // bytes), next to the small ones above
+    for (j, n) in [257usize, 301, 1025, 4098, 16_385, 259].into_iter().enumerate() {
+        v.push((0x7e60 + j as u16, (0..n).map(|i| (i * 7 + j + 1) as u8 | 1).collect()));
+    }
     v
 }
 
@@ -761,6 +767,34 @@ pub fn run(ctx: &mut Ctx) {
             }
         }
     }
+    // ---- small and large attributes in both orders in front of every sealing combination ----
+    {
+        let seal_sets: [&[Op]; 7] = [&[Op::Fp], &[Op::Sha1], &[Op::Sha256], &[Op::Sha1, Op::Fp], &[Op::Sha256, Op::Fp], &[Op::Sha1, Op::Sha256, Op::Fp], &[Op::Sha1, Op::Sha256]];
+        let mut gi = 0u64;
+        for large in 36u8..42 {
+            for small in [Op::Typed(0), Op::Typed(1), Op::Raw(1), Op::Raw(5)] {
+                for seals in seal_sets.iter() {
+                    for order in 0..3 {
+                        gi += 1;
+                        if !ctx.mine(gi) {
+                            continue;
+                        }
+                        let mut ops = match order {
+                            0 => vec![small, Op::Raw(large)],
+                            1 => vec![Op::Raw(large), small],
+                            _ => vec![small, Op::Raw(large), Op::Typed(2), Op::Raw(36 + (large - 36 + 1) % 6)],
+                        };
+                        ops.extend_from_slice(seals);
+                        if gi % 3 == 0 {
+                            ops.push(Op::IntoOwned);
+                        }
+                        check_ops(ctx, &ops, &creds);
+                        ctx.count("small-and-large-attribute-sequences");
+                    }
+                }
+            }
+        }
+    }
     // ---- random longer sequences (SmallVec spill beyond 16 types) ----
     let n = ctx.n(60_000, 600_000);
     let mut rng = ctx.rng("random-ops", 0);
@@ -771,7 +805,7 @@ pub fn run(ctx: &mut Ctx) {
         for _ in 0..len {
             ops.push(match rng.below(20) {
                 0..=7 => Op::Typed(rng.below(16) as u8),
-                8..=13 => Op::Raw(rng.below(36) as u8),
+                8..=13 => Op::Raw(if rng.chance(1, 8) { 36 + rng.below(6) as u8 } else { rng.below(36) as u8 }),
                 14 => Op::Dup,
                 15 => Op::Sha1,
                 16 => {
@@ -816,6 +850,7 @@ pub fn run(ctx: &mut Ctx) {
     ctx.require("random-sequences", 1_000);
     ctx.require("class-and-credential-sequences", 10_000);
     ctx.require("clone-from-sequences", 5_000);
+    ctx.require("small-and-large-attribute-sequences", 400);
 }
 
 pub fn replay(ctx: &mut Ctx, w: &Value) -> Result<(), String> {
